@@ -25,7 +25,7 @@ for t,mx in types:
         //@ end
         open spec fn self_delimiting() -> bool {{ false }}
         open spec fn dec_rel(b: Seq<u8>, v: &{t}, k: int) -> bool {{ true }}
-        open spec fn dec_total() -> bool {{ false }}
+        open spec fn dec_total(b: Seq<u8>) -> bool {{ false }}
         open spec fn dec_stop(rest: Seq<u8>) -> bool {{ true }}
         open spec fn functional() -> bool {{ true }}
         proof fn law_dec_bounds(b: Seq<u8>) {{}}
